@@ -11,6 +11,7 @@ Conformance: harness/cmd/vsl drives real nodes (real TCP dialer/listener backend
 silent, cut, refuse and come back; memnet links; scripted peers) through seeded scenarios; every node's hook events are
 validated by TLC against SessionLifeTrace.tla (same automaton), the driver adds what only it can see."""
 import concurrent.futures as cf
+import os
 import vlib
 import sessionlife
 
@@ -42,6 +43,9 @@ def run(tier, seed, replay=None):
     hooks = wd + "/vsl_hooks.ndjson"
     cfgs = QUICK if tier == "quick" else QUICK + FULL
     exp = EXPECTED if tier == "quick" else EXPECTED + EXPECTED_THOROUGH
+    skip_design = os.environ.get("XSL_SKIP_DESIGN") == "1"    # binding self-tests (mutations of /repo) do not re-check the design
+    if skip_design:
+        cfgs, exp = [], []
     with cf.ThreadPoolExecutor(max_workers=3 if tier == "quick" else 2) as ex:
         fh = ex.submit(vlib.harness_json, vsl, ["-scenarios", str(n), "-par", "12" if tier == "quick" else "18", "-seed", str(seed), "-hooktrace", hooks],
                        wd, 3000, None, "vsl")
@@ -50,7 +54,7 @@ def run(tier, seed, replay=None):
         res = fh.result()
         design = [f.result() for f in ft]
         leads = [f.result() for f in fe]
-    wit = vlib.witnesses("SessionLife", "SessionLife_wit.cfg", WITNESSES, wd, workers=2, timeout=600)
+    wit = [] if skip_design else vlib.witnesses("SessionLife", "SessionLife_wit.cfg", WITNESSES, wd, workers=2, timeout=600)
     for viol in res["violations"]:
         v.violation(viol["sig"], viol["what"], viol["replay"])
     if res.get("inconclusive") and len(res["inconclusive"]) > max(1, n // 6):
